@@ -12,698 +12,635 @@ Definition show_fres (r : fres) : string :=
   end.
 Definition check (rs : list rune) : string := digest (show_fres (format_res rs)).
 Definition full (rs : list rune) : string := show_fres (format_res rs).
-Eval vm_compute in ("<<<M1605>>>" ++ check (runes_of_ascii "MetaData Pad 
-{
-
-char[]  Packet
-    ,
-    f32a i64_	`tab	here` 
-  // c
-	  // a // b
-
-,}
-	root
-	packet As{ @calculatedFrom(""CRC32"" )	@calculatedFrom(""1"")
-    @calculatedFrom(
-""// no comment""
-// a // b
-      //
-      )  As
-As
-`say ""hi""`
-,  Foo
-	msg_type,	calculatedFrom 
-@calculatedFrom(
-""\n""  ) , zchar { zchar[
-
-    7 ]
-charz // `tick` ""quote"" 'q'
-      @calculatedFrom( ""x y""
-
-)	, Z9_ 
-`{ , }` ,
-
-repeat int{
-	zchar[
-3]
-    i8i8 @lengthOf(  chars),  match
-
-zchar
-    as 
-o
-{1
-	://
-    	u128,	0	:
-// trailing space 
-//x
-    	stringy,  42  : charz
-""x y""  :a1
-3
-
-    : 
-Header ,
-
-    4294967296 :o
-
-    } 
-,
-
-    repeat
-    Header
-`two words` 
-,match
-u8x
-as u8x
-{[	10
-    ]:
-
-pack
-	, 1  : 
-BodyLength
-//
-    // " ++ [27880; 37322]%N ++ runes_of_ascii "
-    0
-: MetaDataX
-
-, 42: 
-calculatedFrom
-} ,
-} 	 /// triple
-    	,
-}	,	// " ++ [27880; 37322]%N ++ runes_of_ascii "
-} 
-
-    // `tick` ""quote"" 'q'
-
-	/// triple
-  packet i64_
-{}
-    root	packet x
-{ Header {
-
-    char[/// triple
-	0
-
-    ]
-_x	`// not a comment`	,
-    } ,  @lengthOf(
-A )	uint32
-
-f32a@calculatedFrom(  ""abc"" )  
-      // `tick` ""quote"" 'q'
-  // " ++ [27880; 37322]%N ++ runes_of_ascii "
-    	,
-    repeat
-
-i16 
-trueish
-
-`u8 x,`
-	,  @rightPad
-	(
-' ' 
-) @calculatedFrom(
-	""a\\""
-) float
-,repeat	char[7	]	zchar	, @tag(  10 )
-	repeat  
-  //	t
-  	a1
-
-    falsey
-	`say ""hi""` , @lengthOf( len
-) repeat
-	zchar[ 
-00
-    // `tick` ""quote"" 'q'
-  ]
-uint8x,
-}MetaData
-metadata	{ u8 
-body
-,	}
-")).
-Eval vm_compute in ("<<<M1791>>>" ++ check (runes_of_ascii "root
-	packet// @lengthOf(
-    repeatCount	{
-	@lengthOf( u8x)@calculatedFrom(
-    ""1"")
-    @tag(
-007) 
-repeat
-
-    zchar[ 
-42
-    ] Header
-
-    `" ++ [28040; 24687; 31867; 22411]%N ++ runes_of_ascii "`
-,
-match
-    options1 as
-asx {255
-	    // `tick` ""quote"" 'q'
-:
-
-roots	, } 
-,  // a // b
-    Header @lengthOf(  
-      // a // b
-  	options1	)
-
-    ``
-
-,	Header 	 //	t
-  @lengthOf( 
-len
-)`{ , }` ,o  matchKey`u8 x,`
-	, } packet packetx
-{zchar[
-    255  ]
-
-crc 
-,	}
-	packet	Logon 
-{
-	body 
-{
-	float{
-repeat Logon trueish ,
-
-    },
-    } 
-, 
-@calculatedFrom( 
-    // `tick` ""quote"" 'q'
-    ""`tick`"")repeat
-
-char[0 ] f32a
-,	match  body
-    as 
-float
-{
-	[
-65535
-
-,
-""" ++ [28040; 24687]%N ++ runes_of_ascii """ ]	:
-calculatedFrom
-,
-    }
-	,  u32
-	float
-    @calculatedFrom( """ ++ [233]%N ++ runes_of_ascii "t" ++ [233]%N ++ runes_of_ascii """ 	 // @lengthOf(
-
-	)	,
-string
-body
-
-    @lengthOf( 
-len
-
-    )
-
-    `
-` 	 //
-	,u8x
-@calculatedFrom(
-""a\""b"" ) 
-
-    //	t
-  ,	//	t
-  	float64
-    options1
-    @calculatedFrom(
-	""" ++ [128512]%N ++ runes_of_ascii """
-	)	`it's`
-	, 
-//x
-  // trailing space 
-    match	crc as
-    chars
-{
-    3 :
-	options1// @lengthOf(
-    ,  [
-    10 ] :
-    _x	[ ""{,}""
-	]
-:options1, [
-
-""CRC32""
-,""a\\"" ,  ""a\\""
-,""packet"" , 
-7 
-    // `tick` ""quote"" 'q'
-  	] :
-As
-
-} , i16	msg_type
-    , }
-")).
-Eval vm_compute in ("<<<M1817>>>" ++ check (runes_of_ascii "
-packet calculatedFrom {	// a // b
-		string	charz `two words`
-//	t
-	//x
-
-	, }
-packet
-
-    stringy
-{ @lengthOf(	msg_type
-) crc 
-    // " ++ [128512]%N ++ runes_of_ascii " emoji
-  ,	@leftPad
-
-(
-'0'  )
-crc
-
-    @lengthOf(
-	u128 //	t
-      ) , 
-@leftPad
-
-(' ')	match
-x_y_z as rootA{[	// @lengthOf(
-	3
-	,
-	255 ]
-	:
-    int""1""  :
-	o 
-,  // a // b
-		10 :
-tag ,	// c
-    10	// " ++ [128512]%N ++ runes_of_ascii " emoji
-  : Header ,
-    3: 
-a1
-
-, """ ++ [128512]%N ++ runes_of_ascii """
-
-: 
-packetx	, 
-} 
-      // packet A { u8 x, }
-  	// packet A { u8 x, }
-	, match 
-// " ++ [27880; 37322]%N ++ runes_of_ascii "
-  // a // b
-  	o	as	x	//x
-
-{""a	b""
-    :u8x
-    ,
-	} ,
-@rightPad (
-)repeat
-u	packetx,
-    T  // " ++ [27880; 37322]%N ++ runes_of_ascii "
-	, repeat 
-Logon , T
-    { repeat
-
-    x_y_z
-	,  // a // b
-
-i8
-crc`two words` ,
-
-    char[]
-
-calculatedFrom@calculatedFrom( ""x y""  )
-,
-}, roots  calculatedFrom
-	,@lengthOf(  asx
-    )  repeat
-    x_y_z  {
-T matchKey 
-,  }  , }	options 
-{float= 
-char[1	]
-;
-msg_type	// c
-
-= i8
-
-    x
-
-= 
-//
-	// `tick` ""quote"" 'q'
-  zchar[ 7
-
-    ]
-; f32a
-
-=  ""\n""	}
-")).
-Eval vm_compute in ("<<<M379>>>" ++ check (runes_of_ascii "root
-    packet i64_ { trueish ,
-@calculatedFrom(""abc"") @tag( 7 )
-    // c
-    int16
-    asx
-, @calculatedFrom( ""a\\"" ) float32 crc
-@lengthOf(
-Foo ) ,	@tag( // `tick` ""quote"" 'q'
-42 // c
-) zchar[
-// c
-// packet A { u8 x, }
-7 ] asx @lengthOf( calculatedFrom) `// not a comment` , //
-repeat zchar[ 1]// a // b
-As ,	chars `two words` , @calculatedFrom( ""1"" )
-@tag(
-    // `tick` ""quote"" 'q'
-    0123456789 ) @leftPad ('0')
-    repeat
-    char[] BodyLength `tab	here`, } MetaData u128 // packet A { u8 x, }
-{
-u16 i64_
-,
-    float32 asx//
-`two words` ,//
-i64
-leftPad, zchar[ 00 // `tick` ""quote"" 'q'
-] _x
-    , //
-} MetaData chars
-    //
-    {Foo crc
-`say ""hi""` , uint8 u`two words` , // " ++ [128512]%N ++ runes_of_ascii " emoji
-f32
-pack
-`crlf
-line`, string _x `" ++ [233]%N ++ runes_of_ascii "`  , } packet x_y_z{ } options { calculatedFrom = ""CRC32"" crc
-    = uint16 ; u =
-false
-    Foo
-=
-    char  } // " ++ [128512]%N ++ runes_of_ascii " emoji")).
-Eval vm_compute in ("<<<M1733>>>" ++ check (runes_of_ascii "root packet leftPad {
-    @calculatedFrom(""" ++ [128512]%N ++ runes_of_ascii """)
-    int64 len `{ , }`,
-}
-
-packet u128 {
-    zchar[65535] chars @calculatedFrom(""\" ++ [233]%N ++ runes_of_ascii """),
-    @lengthOf(int)
-    i64_,
-    crc {
-        match Z9_ as Logon {
-            10 : int,
-            [0] : u8x,
-            // trailing space 
-            //x
-            42 : trueish,
-            [""\" ++ [233]%N ++ runes_of_ascii """, 4294967296] : Z9_,
-            ""\n"" : u128,
-        },
-        repeat string_ uint8x,
-        i8i8,
-        match u as body {
-            4294967296 : Z9_,
-            10 : Z9_,
-            [""" ++ [128512]%N ++ runes_of_ascii """, ""x y""] : pack,
-        },
-    },
-    @tag(0123456789)
-    @lengthOf(calculatedFrom)
-    @leftPad('\x00')
-    zchar[3] T,
-    match A as leftPad {
-        [""" ++ [28040; 24687]%N ++ runes_of_ascii """] : i64_,
-        ""// no comment"" : string_,
-    },
-}// trailing space ")).
-Eval vm_compute in ("<<<M1617>>>" ++ check (runes_of_ascii "  // top
-packet  // c0a
-  	// c0b
-
-  Sub// c1
-    	{ 
-	// c2
-u8	// c3a
-    // c3b
-  	a
-    // c4
-		, // c5
-    @calculatedFrom( ""CRC16""
-)
-
-// c8
-    i32  // c9
-
-	SubSum  
-      // c10
-  ,
-}  // c12
-	  root
-packet // c14a
-	// c14b
-	Frame 	 // c15
-      { 
-    // c16
-  u16 
-
-    // c17
-	MsgType// c18a
-    // c18b
-		,	// c19
-u16 	 // c20a
-  // c20b
-  BodyLen // c21a
-	// c21b
-  @lengthOf( Body
-	)
-    ,	// c25a
-      // c25b
-    Sub
-
-// c26
-
-Body // c27
-  , 
-
-    // c28
-
-	string 	 // c29a
-  	// c29b
-  	note	// c30a
-	// c30b
-
-,
-	    // c31
-		@calculatedFrom(// c32
-  ""CRC16"" )i32
-
-Checksum 	 // c36a
-    // c36b
-    , // c37a
-  	// c37b
-	u8// c38
-  tail
-,
-}  
-  // c41
-")).
-Eval vm_compute in ("<<<M1635>>>" ++ check (runes_of_ascii "root packet u8x {
-    char i64_,
-    repeat char[1] Z9_,
-    @tag(42)
-    repeat Logon MetaDataX,
-    @leftPad()
-    Foo @lengthOf(As),
-    match u128 as calculatedFrom {
-        // " ++ [128512]%N ++ runes_of_ascii " emoji
-        4294967296 : BodyLength,
-        3 : A,
-        //
-        [4294967296, ""packet""] : o,
-        65535 : roots,
-    },
-    repeat Pad {
-        uint64 x @calculatedFrom(""" ++ [128512]%N ++ runes_of_ascii """),
-        a1 @lengthOf(As) `line1
-                line2`,
-        repeat string_ {
-            repeat uint32 _x,
-            f32 MetaDataX `it's`,
-            u64 As @lengthOf(crc),
-        },
-        roots,
-    },
-    zchar[00] u128,
-}
-//	t")).
-Eval vm_compute in ("<<<M1915>>>" ++ check (runes_of_ascii "
-root
-	    // " ++ [27880; 37322]%N ++ runes_of_ascii "
-  // @lengthOf(
-    packet Packet{ string  o@calculatedFrom(
-""\" ++ [233]%N ++ runes_of_ascii """
-	) , @lengthOf(
-
-    Packet
-        // packet A { u8 x, }
-)
-
-    body
-@calculatedFrom( 	 // @lengthOf(
-	  ""x y""
-)
-
-    `it's`
-, float64
-	As
-@calculatedFrom(  ""`tick`""
-	)	,
-    char[]
-
-    stringy @calculatedFrom( """ ++ [28040; 24687]%N ++ runes_of_ascii """  ) `doc`	,
-
-    @calculatedFrom( ""a	b""
-    )  match
-float as
-o 
-{ [""" ++ [128512]%N ++ runes_of_ascii """
-,
-	007
-	]
-
-    :
-metadata
-
-,}
-,
-
-f32a
-    a1  `a\`
-
-    , 
-}MetaData
-    repeatCount
-	{packetx
-	i64_`" ++ [28040; 24687; 31867; 22411]%N ++ runes_of_ascii "` ,  // " ++ [128512]%N ++ runes_of_ascii " emoji
-    zchar[
-
-3]
-tag
-
-    ,
-i8i8
-
-int , 
-}
-")).
-Eval vm_compute in ("<<<M1433>>>" ++ check (runes_of_ascii "options {
-    ArrayPrefixLenType = u64;
-    FixedStringPadFromLeft = true;
-    FixedStringPadChar = '0';
-}
-
-packet Quote {
-}
-
-packet Ack {
-    repeat InNote66 {
-        u8 pad0,
-    },
-}
-
-packet Reject {
-}
-
-root packet Order {
-    Quote,
-    repeat Reject,
-    string venue,
-    string seqNo,
-    uint32 Ref,
-    u16 lastPx,
-    u32 clOrdID @lengthOf(Body),
-    match lastPx as Body {
-        190 : Reject,
-        186 : Quote,
-        22 : Ack,
-    },
-    u16 Flags @calculatedFrom(""CRC32""),
-}")).
-Eval vm_compute in ("<<<M1430>>>" ++ check (runes_of_ascii "options {
-    LittleEndian = true;
-    StringPrefixLenType = u64;
+Eval vm_compute in ("<<<M386>>>" ++ check (runes_of_ascii "options {
+    StringPrefixLenType = u16;
     ArrayPrefixLenType = u16;
-    FixedStringPadFromLeft = false;
-    FixedStringPadChar = ' ';
+}
+
+packet SampleBinary {
+    uint16 MsgType `" ++ [28040; 24687; 31867; 22411]%N ++ runes_of_ascii "`,
+    u16 BodyLenght @lengthOf(Body) `" ++ [28040; 24687; 20307; 38271; 24230]%N ++ runes_of_ascii "`,
+    match MsgType as Body {
+        1 : Logon,
+        2 : Logout,
+        3 : Heartbeat,
+        4 : RiskControlRequest,
+        5 : RiskControlResponse,
+    },
+    @calculatedFrom(""CRC32"")
+    u32 Ckecksum `" ++ [26657; 39564; 21644]%N ++ runes_of_ascii "`,
 }
 
 packet Logon {
-    zchar[5] Side2,
+    @leftPad('0')
+    char[10] UserName `" ++ [29992; 25143; 21517]%N ++ runes_of_ascii "`,
+    string Password `" ++ [23494; 30721]%N ++ runes_of_ascii "`,
+    uint64 ClientId `" ++ [23458; 25143; 31471]%N ++ runes_of_ascii "ID`,
+    u16 HeartbeatInterval `" ++ [24515; 36339; 38388; 38548]%N ++ runes_of_ascii "`,
 }
 
-root packet Logout {
-    repeat i64 Tail,
-    Logon,
-    repeat i16 OrderId,
-    char[] venue,
-    uint64 x,
-    repeat i16 count,
-    u8 Flags,
-    match Flags as Body {
-        25 : Logon,
+packet Logout {
+    @rightPad('0')
+    char[10] UserName `" ++ [29992; 25143; 21517]%N ++ runes_of_ascii "`,
+    uint64 ClientId `" ++ [23458; 25143; 31471]%N ++ runes_of_ascii "ID`,
+}
+
+packet Heartbeat {
+}
+
+packet RiskControlRequest {
+    string UniqueOrderId `" ++ [21807; 19968; 35746; 21333; 21495]%N ++ runes_of_ascii "`,
+    char[16] ClOrdID `" ++ [23458; 25143; 35746; 21333; 21495]%N ++ runes_of_ascii "`,
+    char[3] MarketID `" ++ [24066; 22330]%N ++ runes_of_ascii "id`,
+    char[12] SecurityID `" ++ [35777; 21048; 20195; 30721]%N ++ runes_of_ascii "`,
+    char Side `" ++ [20080; 21334; 26041; 21521]%N ++ runes_of_ascii "`,
+    char OrderType `" ++ [35746; 21333; 31867; 22411]%N ++ runes_of_ascii "`,
+    u64 Price `" ++ [20215; 26684]%N ++ runes_of_ascii "`,
+    u32 Qty `" ++ [25968; 37327]%N ++ runes_of_ascii "`,
+    repeat string ExtraInfo `" ++ [38468; 21152; 20449; 24687]%N ++ runes_of_ascii "`,
+    repeat SubOrder {
+        char[16] ClOrdID `" ++ [23376; 35746; 21333; 21495]%N ++ runes_of_ascii "`,
+        u64 Price `" ++ [23376; 35746; 21333; 20215; 26684]%N ++ runes_of_ascii "`,
+        u32 Qty `" ++ [23376; 35746; 21333; 25968; 37327]%N ++ runes_of_ascii "`,
     },
-    u16 Qty @calculatedFrom(""CR\
-        C32""),
+}
+
+packet RiskControlResponse {
+    string UniqueOrderId `" ++ [21807; 19968; 35746; 21333; 21495]%N ++ runes_of_ascii "`,
+    i32 Status `" ++ [29366; 24577]%N ++ runes_of_ascii "`,
+    string Msg `" ++ [32467; 26524; 20449; 24687]%N ++ runes_of_ascii "`,
+    repeat Detail,
+}
+
+packet Detail {
+    string RuleName `" ++ [35268; 21017; 21517; 31216]%N ++ runes_of_ascii "`,
+    u16 Code `" ++ [21407; 22240; 20195; 30721]%N ++ runes_of_ascii "`,
 }")).
-Eval vm_compute in ("<<<M126>>>" ++ check (runes_of_ascii "
-packet T// c
-{ @tag(  00 )repeat char[]	charz
-`
-` , char[0123456789 ]BodyLength
-    @lengthOf( //x
-Z9_
-    )
-    `u8 x,`
-,
-}	MetaData
-crc {
-float64
-int `" ++ [28040; 24687; 31867; 22411]%N ++ runes_of_ascii "`// a // b
-,	As Logon `` , // `tick` ""quote"" 'q'
-uint8 // " ++ [27880; 37322]%N ++ runes_of_ascii "
-u
-, u32  stringy `
-`,
-// a // b
-//	t
-uint64 uint8x , asx
-calculatedFrom	,//x
-} MetaData chars { char[ 1
+Eval vm_compute in ("<<<M149>>>" ++ check (runes_of_ascii "// trailing space 
+packet
+    charz {	@calculatedFrom( ""1""
+)match x
+as tag
+    {	[
+7 , // @lengthOf(
+0
+, 65535	,
     // `tick` ""quote"" 'q'
-    ] //	t
-chars ,
-    } // trailing space ")).
-Eval vm_compute in ("<<<M75>>>" ++ check (runes_of_ascii "packet zchar { @calculatedFrom( ""`tick`""
-) uint32
-    falsey,} MetaData packetx {
-string
-//
-// @lengthOf(
-msg_type `u8 x,`, }packet i8i8 {zchar@lengthOf(
-uint8x
-    ) ,
-    }packet As{ zchar[ 4294967296
+    ""it's""/// triple
+,0
+    ,
+""x y"", 255 ] :tag  , [ ""1"" // a // b
+, //	t
+3  , 007, // " ++ [27880; 37322]%N ++ runes_of_ascii "
+255 ,  ""x y""
+    // @lengthOf(
+    ] :pack ,[""" ++ [233]%N ++ runes_of_ascii "t" ++ [233]%N ++ runes_of_ascii """	, 7  , 10  , 3
+, 0
+    , ""a\""b"" ] :
+    // packet A { u8 x, }
+    leftPad, [ 65535
     // " ++ [27880; 37322]%N ++ runes_of_ascii "
-    ] T	@calculatedFrom( ""abc"" ) , @tag(007 )
-    repeat
-    i16
+    ,
+""x y""]
+: chars [ ""\n"" ,65535 , ""a\\""
+] :
+A	, ""\n"" :
+    lengthOf , } ,
+match string_
+    as	i8i8 { 7 :msg_type , // c
+""abc"" :
+tag ,""a\""b"" :metadata, 255
+    : matchKey	,
+    [""CRC32"" ,""1""
 // " ++ [27880; 37322]%N ++ runes_of_ascii "
+// " ++ [128512]%N ++ runes_of_ascii " emoji
+, 007 , ""packet"" ,""a\\"" /// triple
+,	""a\""b""
+    // " ++ [128512]%N ++ runes_of_ascii " emoji
+    , 007 , 4294967296 ] : lengthOf , }
+,uint16
+pack , string Pad@lengthOf( o ) `say ""hi""` ,repeat i8 body
+    ,
+@lengthOf( //x
+crc ) float64 body `// not a comment`
+, repeat rootA { int16 x_y_z `tab	here` ,
+falsey @calculatedFrom( ""{,}"" ), trueish @lengthOf(
+crc) `{ , }` , }
+, match Pad as
+Header
+{
+    4294967296: Header,""\n"" :msg_type,""a	b"" :
+    x_y_z
+    , }
+,
+    //	t
+    Logon
+, } 	 ")).
+Eval vm_compute in ("<<<M1559>>>" ++ check (runes_of_ascii "
+
+  options 
+{
+    FixedStringPadFromLeft
+
+=
+true  ;FixedStringPadChar =
+'0' ;
+
+} packet
+
+    Leg {
+	repeat	InSym93
+{ zchar[
+    3 ]
+
+    Acct 
+,
+
+    string	Side2
+	,
+i32 Flags
+
+, 
+f32
+Note ,i32
+    msgKind
+,
+} , 
+f64 Note
+
+    , uint16 Px
+    ,}
+packet
+Quote
+{zchar[2 ]
+    OrderId 
+,
+
+}packet Ack
+	{
+
+repeat
+
+string lastPx 
+,
+	zchar[ 
+4
+
+    ]  price
+	,
+    uint32
+OrderId
+
+, Quote
+,
+	int8
+
+Acct	, 
+}	packet Fill	{  repeat Leg,
+
+@rightPad
+	('0'
+
+    )	char[ 11 
+]	Note
+, f64 Px
+, @rightPad
+
+(
+'\x00'
+
+    )char[ 5	]Flags
+
+,  zchar[9
+	]	x
+
+    ,
+	string	msgKind , 
+}
+	root  packet
+Order
+{
+Leg
+    ,
+    repeat
+
+    Ack  ,
+    @rightPad(	'\x00'	) 
+char[
+3 ]
+
+Side2 ,repeat
+	char[  1 ] seqNo
+,
+    u16
+clOrdID 
+,  match clOrdID
+    as
+Body{ 198
+:  Leg
+
+    , 23
+    : Quote ,
+
+    13 :
+
+Ack	, 159
+: Fill,
+	}
+    , u32	venue	@calculatedFrom( ""CR\
+C32""	)
+
+,
+
+} ")).
+Eval vm_compute in ("<<<M141>>>" ++ check (runes_of_ascii "options // @lengthOf(
+{zchar = char[] Z9_	='0' ;
+} options
+{ asx = char[] }root packet leftPad { T @lengthOf(
+    f32a//
+)
+, } //
+root
+//x
+// @lengthOf(
+packet calculatedFrom {
+u
+    {//	t
+char[] // packet A { u8 x, }
+T `" ++ [233]%N ++ runes_of_ascii "`	,	match stringy /// triple
+as //	t
+chars { [
+    0123456789 ]
+: T ,
+// `tick` ""quote"" 'q'
+// " ++ [27880; 37322]%N ++ runes_of_ascii "
+}	, uint16 a1 @lengthOf( x) , string
+chars `two words` ,
+} , @calculatedFrom(
+    ""x y"")char[]
+// " ++ [27880; 37322]%N ++ runes_of_ascii "
+// " ++ [128512]%N ++ runes_of_ascii " emoji
+body @lengthOf(
+lengthOf )
+    /// triple
+    ,
+    @lengthOf(	A	)rootA
+,	@lengthOf(i64_ ) // packet A { u8 x, }
+repeat f32a { lengthOf
+    // " ++ [128512]%N ++ runes_of_ascii " emoji
+    charz // a // b
+`" ++ [28040; 24687; 31867; 22411]%N ++ runes_of_ascii "`, }
+    // packet A { u8 x, }
+    ,
+match tag as
+//x
+//	t
+T { [
+3
+] : falsey , }	,zchar[
+    00
+    ] charz@lengthOf(
+    Pad
+) ,
+@tag( 3	) lengthOf{ i16 As ,
+} ,
+} root
+packet	body{ }
+")).
+Eval vm_compute in ("<<<M1879>>>" ++ check (runes_of_ascii "MetaData len {
+    i8 _x ``,
+    zchar[00] tag,
+    roots u,
+    uint16 repeatCount,
+    msg_type tag,
+}
+
+packet x_y_z {
+    metadata {
+        i8i8 chars,
+        i64 chars,
+    },
+    repeat u16 asx,
+}
+
+packet u8x {
+    @lengthOf(BodyLength)
+    @leftPad()
+    float `
+    `,
+    @calculatedFrom(""// no comment"")
+    float32 chars `// not a comment`,
+    uint32 u128,
+    @tag(0)
+    int16 tag,
+    leftPad msg_type,// trailing space 
+    pack `tab	here`,
+    @lengthOf(repeatCount)
+    zchar[4294967296] len,
+    i32 packetx `tab	here`,
+    calculatedFrom,
+    metadata @calculatedFrom(""// no comment""),
+}
+
+options {
+    // trailing space 
+    options1 = 42;
+    i64_ = char[]
+    falsey = 42// a // b
+    Packet = true;
+}")).
+Eval vm_compute in ("<<<M1831>>>" ++ check (runes_of_ascii "
+packet
+	leftPad
+	{
+match
+	A as 
+x 
+{
+    ""`tick`""  :
+MetaDataX  //
+      ,[
+
+    ""it's"",
+
+    ""\n"" ,""" ++ [28040; 24687]%N ++ runes_of_ascii """  ]
+    :
+
+string_
+,
+
+    0123456789
+:	o
+,[ ""{,}""
+,
+
+    ""x y""	]
+	:
+
+    uint8x	}
+
+,
+	char[
+3 
+]
+
+msg_type 	 // " ++ [128512]%N ++ runes_of_ascii " emoji
+@lengthOf(
+
+    u
+    //	t
+
+	// " ++ [27880; 37322]%N ++ runes_of_ascii "
+
+)	`two words` 
+,
+
+    // c
+    repeat
+int 
 // packet A { u8 x, }
-u8x `say ""hi""`, @lengthOf( u )
-repeat uint16 u128 , }")).
-Eval vm_compute in ("<<<M1766>>>" ++ check (runes_of_ascii "options {
+  // @lengthOf(
+		Foo
+,	@rightPad 
+(
+	)@rightPad
+	( ' '
+) Foo 
+charz
+`{ , }`	,
+} 
+MetaData
+	A
+
+{ zchar[  0
+	]A
+
+`{ , }` 
+,  float32 
+a1
+	    //
+	,  char[] 
+pack
+    , 	 /// triple
+  string
+body`" ++ [233]%N ++ runes_of_ascii "`
+
+    ,
+
+string
+chars`doc` 
+, int
+
+_x
+
+    `two words` 
+,
+}options
+
+    { Z9_
+=
+
+    uint16
+;
+}
+")).
+Eval vm_compute in ("<<<M260>>>" ++ check (runes_of_ascii "packet metadata{ @rightPad
+    (	) zchar[
+//	t
+// `tick` ""quote"" 'q'
+0123456789] i64_
+    // @lengthOf(
+    @calculatedFrom( ""\n"" ) , @leftPad (
+    ' '// " ++ [27880; 37322]%N ++ runes_of_ascii "
+) zchar[ // `tick` ""quote"" 'q'
+255
+]
+    MetaDataX `{ , }`// a // b
+, @rightPad (
+' ' )@calculatedFrom(""abc"" ) // " ++ [128512]%N ++ runes_of_ascii " emoji
+@lengthOf(
+matchKey
+// `tick` ""quote"" 'q'
+// `tick` ""quote"" 'q'
+)
+repeat char[ 42 ] packetx // packet A { u8 x, }
+`" ++ [233]%N ++ runes_of_ascii "` ,  trueish@calculatedFrom( ""packet"" )
+`a\` , matchKey int `" ++ [28040; 24687; 31867; 22411]%N ++ runes_of_ascii "` ,	@tag(
+    // c
+    0
+) len{ char[65535 ] Header,
+}
+,@lengthOf( f32a ) zchar[	10  ]
+    trueish `crlf
+line` ,  }
+")).
+Eval vm_compute in ("<<<M1370>>>" ++ check (runes_of_ascii "options {
+    StringPrefixLenType = u8;
+    ArrayPrefixLenType = u8;
+    FixedStringPadFromLeft = false;
+    FixedStringPadChar = ' ';
+}
+packet Ack {
+    char[] tag7,
+}
+packet Reject {
+    InSym61 {
+        repeat Ack,
+        zchar[4] f1,
+    },
+}
+packet Logout {
+    char[4] clOrdID,
+}
+root packet Cancel {
+    @leftPad(' ') char[10] price,
+    u8 x,
+    u32 venue @lengthOf(Body),
+    match x as Body {
+        [92, 175] : Logout,
+        26 : Reject,
+        144 : Ack,
+    },
+    u16 count @calculatedFrom(""CR\
+C32""),
+}
+")).
+Eval vm_compute in ("<<<M1622>>>" ++ check (runes_of_ascii "
+
+  // top
+	packet  // c0
+
+B // c1a
+	  // c1b
+    { // c2
+    	u8	// c3a
+
+	// c3b
+  	a// c4
+,
+
+    } // c6
+
+root	// c7a
+  // c7b
+  	packet // c8a
+  // c8b
+	  P  {// c10
+    u8
+        // c11
+  	K ,	// c13
+      u8	// c14a
+    // c14b
+  L// c15a
+// c15b
+  @lengthOf(  // c16a
+		// c16b
+
+  Body)
+// c18
+  	,	match  // c20
+	K
+
+as 	 // c22a
+// c22b
+  Body  
+  // c23
+	  {
+    1
+    :
+	    // c26
+B// c27
+    , 
+}
+    // c29
+, 
+  // c30
+	}
+        // c31
+")).
+Eval vm_compute in ("<<<M68>>>" ++ check (runes_of_ascii "
+packet
+    Header {  match roots  as packetx
+// " ++ [27880; 37322]%N ++ runes_of_ascii "
+//	t
+{
+    // `tick` ""quote"" 'q'
+    [
+""" ++ [28040; 24687]%N ++ runes_of_ascii """ ,
+    0123456789 ]:packetx,
+//
+// c
+4294967296
+    : Logon ,	[ ""\n""
+    ,""x y"" , // " ++ [128512]%N ++ runes_of_ascii " emoji
+""packet"" , ""packet"" ] : i8i8 , 42 // `tick` ""quote"" 'q'
+:Foo
+    ,
+}, //	t
+@calculatedFrom( ""x y""	) f64 Logon ,} options
+    {
+    // " ++ [128512]%N ++ runes_of_ascii " emoji
+    chars=
+' '
+    ; repeatCount =
+""" ++ [233]%N ++ runes_of_ascii "t" ++ [233]%N ++ runes_of_ascii """ x	= ""\n"" ; calculatedFrom = ""`tick`"" //x
+; }
+")).
+Eval vm_compute in ("<<<M303>>>" ++ check (runes_of_ascii "  packet
+    tag{ } packet
+    //
+    packetx { @calculatedFrom( ""x y""
+    )@tag(
+    42 )
+@lengthOf(
+    As  ) char a1`two words` ,
+    @leftPad
+(
+    '\x00' )
+    @tag(10)
+@lengthOf( u)
+    char[] falsey // " ++ [128512]%N ++ runes_of_ascii " emoji
+,
+    // " ++ [27880; 37322]%N ++ runes_of_ascii "
+    }//
+MetaData
+f32a {
+    string u128 , roots
+    stringy , Header body,
+    float options1
+    //	t
+    `it's`
+    ,	i8i8 options1
+`" ++ [28040; 24687; 31867; 22411]%N ++ runes_of_ascii "`
+    ,
+}")).
+Eval vm_compute in ("<<<M1919>>>" ++ check (runes_of_ascii "// top
+options {
+    // c1
+    zchar = true;
+    // c5
+    Pad = char[00]
+    // c10
+    a1 = uint32
+    // c13
+    BodyLength = true;
+    // c17
+}
+
+// c18
+root packet T {
+    // c22
+    @lengthOf(repeatCount)
+    // c25
+    @tag(1)
+    // c28
+    @calculatedFrom(""a	b"")
+    // c31
+    string stringy @calculatedFrom(""\n"") `u8 x,`,
+    // c38
+}
+// c39")).
+Eval vm_compute in ("<<<M1452>>>" ++ check (runes_of_ascii "options {
     u = 7
     // " ++ [27880; 37322]%N ++ runes_of_ascii "
     roots = zchar[65535]
@@ -725,396 +662,395 @@ packet float {
     @rightPad('0')
     char[3] u128,
 }")).
-Eval vm_compute in ("<<<M1138>>>" ++ check (runes_of_ascii "// top
-MetaData // c0
-leftPad // c1
-{ // c2
-chars // c3
-MetaDataX // c4
-, // c5
-} // c6
-packet // c7
-repeatCount // c8
-{ // c9
-char[ // c10
-255 // c11
-] // c12
-uint8x // c13
-`" ++ [233]%N ++ runes_of_ascii "` // c14
-, // c15
-} // c16
-MetaData // c17
-pack // c18
-{ // c19
-As // c20
-Foo // c21
-, // c22
-} // c23
-")).
-Eval vm_compute in ("<<<M254>>>" ++ check (runes_of_ascii "packet  zchar
-{ zchar[ 42
-//
-//
-]uint8x ,
-    match
-    A as
-As{
-    0: int
-    ,
-}
-, @tag(7 ) @calculatedFrom(
-""packet"" ) match
-i64_
-as metadata //	t
-{
-    ""CRC32"" :
-A , }
-,
+Eval vm_compute in ("<<<M182>>>" ++ check (runes_of_ascii "root packet int {match MetaDataX	as charz
+{ 255 :uint8x , 65535 : // @lengthOf(
+u128 ""\" ++ [233]%N ++ runes_of_ascii """
+:o,0123456789 : _x ""{,}"" :
+    matchKey
+// `tick` ""quote"" 'q'
+// `tick` ""quote"" 'q'
+[4294967296 ,"""" ,	10
+    ]: charz , }	, @lengthOf( roots
+) x @calculatedFrom( ""\n"" )
+    , i32
+    tag , }")).
+Eval vm_compute in ("<<<M202>>>" ++ check (runes_of_ascii "packet Z9_
+    { @calculatedFrom( ""packet"") char //
+BodyLength , match chars as falsey {[65535,
     // c
-    }	root
-packet
-uint8x {
-    char[ 00 ]	crc
-,// " ++ [128512]%N ++ runes_of_ascii " emoji
-} 	 ")).
-Eval vm_compute in ("<<<M82>>>" ++ check (runes_of_ascii "packet metadata
-{int32 calculatedFrom , } options {} options { u128 = '\x00'	;
-    string_ =	""abc""
-    ; }root
-packet i8i8
-    {  @rightPad
-( '\x00' ) repeat	metadata { string_,
-    tag@lengthOf( falsey ) ,
-} ,//x
+    """ ++ [128512]%N ++ runes_of_ascii """ ,""" ++ [28040; 24687]%N ++ runes_of_ascii """ , ""`tick`""  , 10,
+    ""a\\"" ,""a\""b"" // @lengthOf(
+]: repeatCount , ""x y"" :chars , // " ++ [128512]%N ++ runes_of_ascii " emoji
+65535
+://x
+calculatedFrom , } , }
+")).
+Eval vm_compute in ("<<<M1318>>>" ++ check (runes_of_ascii "packet FooBar // c1
+{ u8 a ,
+    // c5
+} // c6
+packet foo_bar // c8a
+  // c8b
+{
+    // c9
+u16
+    // c10
+b , // c12a
+  // c12b
+} // c13
+root // c14
+packet R { // c17a
+  // c17b
+FooBar ,
+    // c19
+foo_bar // c20
+, } ")).
+Eval vm_compute in ("<<<M1428>>>" ++ check (runes_of_ascii "packet FooBar {
+    u8 a,
+    // c5
+}// c6
+
+packet foo_bar {
+    // c9
+    u16 b,// c12a
+    // c12b
+}// c13
+
+root packet R {
+    // c17a
+    // c17b
+    FooBar,
+    // c19
+    foo_bar,
 }")).
-Eval vm_compute in ("<<<M311>>>" ++ check (runes_of_ascii "MetaData
-falsey { Header falsey
-`
-` , string Foo `" ++ [28040; 24687; 31867; 22411]%N ++ runes_of_ascii "`
-    // `tick` ""quote"" 'q'
-    ,falsey repeatCount , i8
-u , }
-packet A	{ match _x as T { 007: lengthOf// `tick` ""quote"" 'q'
-}, } 	 ")).
-Eval vm_compute in ("<<<M1809>>>" ++ check (runes_of_ascii "packet A {
+Eval vm_compute in ("<<<M1561>>>" ++ check (runes_of_ascii "
+
+  packet
+
+    A { match  k
+
+    as
+
+n
+{ 
+[
+
+    1
+,  ""bb"" 
+,007	,	""d"" , 5 
+, ""f""
+
+    ,
+
+    7 
+,""h""  , 
+9
+
+    ,
+""j"", 11
+] :	B
+
+    2
+
+:
+    C
+	}
+	, 
+}")).
+Eval vm_compute in ("<<<M491>>>" ++ check (runes_of_ascii "packet uint8x
+{ match pack
+    as msg_type	{
+    0123456789 :	float
+}
+,
+} packet //	t
+a1
+    { } options {packetx packetx
+    = '\x00'	; u128= ""a	b""  ; }
+")).
+Eval vm_compute in ("<<<M416>>>" ++ check (runes_of_ascii "packet uint8x
+{ match pack
+    as as msg_type	{
+    0123456789 :	float
+}
+,
+} packet //	t
+a1
+    { } options {packetx
+    = '\x00'	; u128= ""a	b""  ; }
+")).
+Eval vm_compute in ("<<<M1707>>>" ++ check (runes_of_ascii "packet string_ {
+    @lengthOf(float)
+    // @lengthOf(
+    BodyLength {
+        match uint8x as i64_ {
+            0123456789 : As,
+        },
+    },
+}")).
+Eval vm_compute in ("<<<M467>>>" ++ check (runes_of_ascii "packet uint8x
+{ match pack
+    as msg_type	{
+    0123456789 :	float
+}
+,
+} packet //	t
+{
+    a1 } options {packetx
+    = '\x00'	; u128= ""a	b""  ; }
+")).
+Eval vm_compute in ("<<<M530>>>" ++ check (runes_of_ascii "packet uint8x
+{ match pack
+    as msg_type	{
+    0123456789 :	float
+}
+,
+} packet //	t
+a1
+    { } options {packetx
+    = '\x00'	; u128= ""a	b""  ; 
+")).
+Eval vm_compute in ("<<<M405>>>" ++ check (runes_of_ascii "packet uint8x
+{  pack
+    as msg_type	{
+    0123456789 :	float
+}
+,
+} packet //	t
+a1
+    { } options {packetx
+    = '\x00'	; u128= ""a	b""  ; }
+")).
+Eval vm_compute in ("<<<M490>>>" ++ check (runes_of_ascii "packet uint8x
+{ match pack
+    as msg_type	{
+    0123456789 :	float
+}
+,
+} packet //	t
+a1
+    { } options {
+    = '\x00'	; u128= ""a	b""  ; }
+")).
+Eval vm_compute in ("<<<M646>>>" ++ check (runes_of_ascii "// @lengthOf(
+packet i8i8 { u128 o , }
+options { MetaDataX = true;
+    BodyLength =""packet"" x_y_z= 
+crc //x
+= ""abc"" ;
+    msg_type =
+i16 }")).
+Eval vm_compute in ("<<<M1855>>>" ++ check (runes_of_ascii "
+MetaData
+leftPad
+
+{
+chars
+MetaDataX
+, }packet 
+repeatCount	{
+char[255 // c
+  	]
+uint8x `" ++ [233]%N ++ runes_of_ascii "`
+
+,
+} 
+MetaData pack	{
+    As Foo ,
+}")).
+Eval vm_compute in ("<<<M1935>>>" ++ check (runes_of_ascii "packet A {
     match k as n {
         [
-            ""a"", 22, ""c c"", 4, ""e"",
-            66, ""g"", 8, ""i"", 10,
-            ""k"", 12
+            1, 22, 007, 4, 5,
+            66, 7, 8
         ] : B,
         2 : C,
     },
 }")).
-Eval vm_compute in ("<<<M461>>>" ++ check (runes_of_ascii "packet uint8x
-{ match pack
-    as msg_type	{
-    0123456789 :	float
-}
+Eval vm_compute in ("<<<M1767>>>" ++ check (runes_of_ascii "
+packet A{
+	match
+k
+
+    as n
+{ 
+[	""a"",
+
+""bb""
+
+    , ""c c"" ,""d"" 
 ,
-} packet packet //	t
-a1
-    { } options {packetx
-    = '\x00'	; u128= ""a	b""  ; }
-")).
-Eval vm_compute in ("<<<M651>>>" ++ check (runes_of_ascii "// @lengthOf(
-packet i8i8 { u128 o , }
-options { MetaDataX MetaDataX = true;
-    BodyLength =""packet"" x_y_z= 007
-crc //x
-= ""abc"" ;
-    msg_type =
-i16 }")).
-Eval vm_compute in ("<<<M538>>>" ++ check (runes_of_ascii "packet uint8x
-{ match pack
-    as msg_type	{
-    0123456789 :	float
-}
+	""e"", ""f"", ""g""
+	,""h""] : B
 ,
-} packet //	t
-a1
-    { } options {packetx
-    = '\x00'	%; u128= ""a	b""  ; }
-")).
-Eval vm_compute in ("<<<M487>>>" ++ check (runes_of_ascii "packet uint8x
-{ match pack
-    as msg_type	{
-    0123456789 :	float
-}
-,
-} packet //	t
-a1
-    { } options packetx{
-    = '\x00'	; u128= ""a	b""  ; }
-")).
-Eval vm_compute in ("<<<M702>>>" ++ check (runes_of_ascii "// @lengthOf(
-packet i8i8 { u128 o , }
-options { MetaDataX = true;
-    BodyLength =""packet"" x_y_z= 007
-crc //x
-= ""abc"" ""abc"" ;
-    msg_type =
-i16 }")).
-Eval vm_compute in ("<<<M661>>>" ++ check (runes_of_ascii "// @lengthOf(
-packet i8i8 { u128 o o , }
-options { MetaDataX = true;
-    BodyLength =""packet"" x_y_z= 007
-crc //x
-= ""abc"" ;
-    msg_type =
-i16 }")).
-Eval vm_compute in ("<<<M648>>>" ++ check (runes_of_ascii "// @lengthOf(
-packet i8i8 { u128 o , }
-options { = MetaDataX true;
-    BodyLength =""packet"" x_y_z= 007
-crc //x
-= ""abc"" ;
-    msg_type =
-i16 }")).
-Eval vm_compute in ("<<<M1260>>>" ++ check (runes_of_ascii "
+2:
+    C
+    }
 
-  packet
-
-B
-    {
-
-u8
-	a
-
-,
-    }root
-packet
-P{ u8 K  , u8
-
-L @lengthOf(
-	Body )
-,  match
-
-K
-    as Body
-{
-
-    1  :  B
-	,  },
-    } ")).
-Eval vm_compute in ("<<<M1665>>>" ++ check (runes_of_ascii "root packet MetaDataX {
-    repeat u8x len `" ++ [28040; 24687; 31867; 22411]%N ++ runes_of_ascii "`,
-    As {
-        u8x,
-    },
-    int f32a `" ++ [233]%N ++ runes_of_ascii "`,
-    @lengthOf(float)
-    Z9_ `a\`,
+, } ")).
+Eval vm_compute in ("<<<M1161>>>" ++ check (runes_of_ascii "MetaData leftPad { chars MetaDataX , } packet repeatCount { // c
+char[ 255 ] uint8x `" ++ [233]%N ++ runes_of_ascii "` , } MetaData pack { As Foo , }")).
+Eval vm_compute in ("<<<M906>>>" ++ check (runes_of_ascii "packet A {
+  match k as n {
+    [""a"", ""bb"", ""c c"", ""d"", ""e"", ""f"", ""g"", ""h"", ""i"", ""j"", ""k"", ""l""] : B,
+    2 : C
+  },
 }")).
-Eval vm_compute in ("<<<M1784>>>" ++ check (runes_of_ascii "packet A {
-    Inner {
-        u8 x `tab
-        	x`,
-        Deep {
-            u8 y `tab
-            	x`,
-        },
-    },
-}")).
-Eval vm_compute in ("<<<M171>>>" ++ check (runes_of_ascii "options { Pad=	'\x00' ; u
-= false  repeatCount
-    = false ;// trailing space 
-T
-=// a // b
-""CRC32"" ;
-    a1 = ""it's""}
+Eval vm_compute in ("<<<M315>>>" ++ check (runes_of_ascii "packet Foo{ tag roots ,
+    // `tick` ""quote"" 'q'
+    i64_, @calculatedFrom( ""packet"" ) uint32 MetaDataX
+, }
 ")).
-Eval vm_compute in ("<<<M1166>>>" ++ check (runes_of_ascii "MetaData leftPad { chars MetaDataX , } packet repeatCount { char[ 255
-// c
-] uint8x `" ++ [233]%N ++ runes_of_ascii "` , } MetaData pack { As Foo , }")).
-Eval vm_compute in ("<<<M1437>>>" ++ check (runes_of_ascii "packet A {
+Eval vm_compute in ("<<<M1285>>>" ++ check (runes_of_ascii "// top
+root
+    // c0
+packet // c1a
+  // c1b
+P
+    // c2
+{ // c3
+string s // c5a
+  // c5b
+,
+    // c6
+} ")).
+Eval vm_compute in ("<<<M956>>>" ++ check (runes_of_ascii "packet A {
     Inner {
         u8 x `
-        `,
+x`,
         Deep {
             u8 y `
-            `,
+x`,
         },
     },
 }")).
-Eval vm_compute in ("<<<M1592>>>" ++ check (runes_of_ascii "
-packet
-A
-	{
-	match  k
-    as
-	n{  [
-    1
-    ,
-22 
-,
-
-    007,
-    4	, 5
-    ] :B ,
-    2
-:C
-}  ,
-	}
-")).
-Eval vm_compute in ("<<<M352>>>" ++ check (runes_of_ascii "packet _x {
-} // trailing space 
-options
-    { repeatCount
-    =42 //x
-;Pad = true;
-x_y_z =
-65535 ;}
-")).
-Eval vm_compute in ("<<<M620>>>" ++ check (runes_of_ascii "
+Eval vm_compute in ("<<<M199>>>" ++ check (runes_of_ascii "packet falsey { string a1 @lengthOf( packetx ) , }
+packet	int { Header	@lengthOf( stringy)
+, }")).
+Eval vm_compute in ("<<<M892>>>" ++ check (runes_of_ascii "packet A {
+  match k as n {
+    [1, 22, 007, 4, 5, 66, 7, 8, 9, 10, 11] : B
+    2 : C
+  },
+}")).
+Eval vm_compute in ("<<<M636>>>" ++ check (runes_of_ascii "
 packet
     asx {match u128 as lengthOf
 {
 //	t
-// `tick` ""quote"" 'q'
+// `ti/ck` ""quote"" 'q'
 255 : x ,
-    } @lengthOf(	}")).
-Eval vm_compute in ("<<<M1474>>>" ++ check (runes_of_ascii "
-
-  packet	metadata
-
-{u32 	 // `tick` ""quote"" 'q'
-
-  Packet	`say ""hi""`, 
-
-// trailing space 
-} ")).
-Eval vm_compute in ("<<<M560>>>" ++ check (runes_of_ascii "
+    } ,	}")).
+Eval vm_compute in ("<<<M562>>>" ++ check (runes_of_ascii "
 packet
-    false {match u128 as lengthOf
+    asx match u128 as lengthOf
 {
 //	t
 // `tick` ""quote"" 'q'
 255 : x ,
     } ,	}")).
-Eval vm_compute in ("<<<M69>>>" ++ check (runes_of_ascii "//
-packet metadata
-{ }	MetaData chars
-//x
-//	t
-{
-    char[ 42	] leftPad `crlf
-line`  ,
-}")).
-Eval vm_compute in ("<<<M879>>>" ++ check (runes_of_ascii "packet A {
-  match k as n {
-    [1, 22, 007, 4, 5, 66, 7, 8, 9, 10] : B
-    2 : C
-  },
-}")).
-Eval vm_compute in ("<<<M556>>>" ++ check (runes_of_ascii "
-,
-    asx {match u128 as lengthOf
+Eval vm_compute in ("<<<M570>>>" ++ check (runes_of_ascii "
+packet
+    asx {{ u128 as lengthOf
 {
 //	t
 // `tick` ""quote"" 'q'
 255 : x ,
     } ,	}")).
-Eval vm_compute in ("<<<M1292>>>" ++ check (runes_of_ascii "
-
-  root
-    packet
-
-P
-
-    {
-	u8
-	s_u8,  repeat  u8 r_u8  , u16
-    b_len, }
-
-")).
-Eval vm_compute in ("<<<M803>>>" ++ check (runes_of_ascii "packet A {
+Eval vm_compute in ("<<<M852>>>" ++ check (runes_of_ascii "packet A {
   match k as n {
-    [""a"", ""bb"", ""c c"", ""d""] : B
+    [1, 22, 007, 4, 5, 66, 7, 8] : B,
     2 : C
   },
 }")).
-Eval vm_compute in ("<<<M807>>>" ++ check (runes_of_ascii "packet A {
+Eval vm_compute in ("<<<M1878>>>" ++ check (runes_of_ascii "
+
+  packet A { match 
+k as
+n  { [
+	""a"" ,	22
+
+, 
+""c c""]
+    : B, 2
+	:C 
+}
+	,}
+")).
+Eval vm_compute in ("<<<M821>>>" ++ check (runes_of_ascii "packet A {
   match k as n {
-    [""a"", 22, ""c c"", 4] : B
+    [1, 22, ""c c"", 4, 5] : B,
     2 : C
   },
 }")).
-Eval vm_compute in ("<<<M449>>>" ++ check (runes_of_ascii "packet uint8x
-{ match pack
-    as msg_type	{
-    0123456789 :	float")).
-Eval vm_compute in ("<<<M246>>>" ++ check (runes_of_ascii "MetaData x {x Packet
-,i32 lengthOf
-, // `tick` ""quote"" 'q'
-}
-")).
-Eval vm_compute in ("<<<M1255>>>" ++ check (runes_of_ascii "root packet P {
-    hdr {
-        u8 a,
-    },
-    u8 x,
-}
-")).
-Eval vm_compute in ("<<<M1952>>>" ++ check (runes_of_ascii "root
-
-packet P
-    {repeat
-char
-	cs
-    ,
-u8
-x 
-,  }
-
-")).
-Eval vm_compute in ("<<<M1211>>>" ++ check (runes_of_ascii "packet body { i32 f32a `{ , }` , // c
-} options { }")).
-Eval vm_compute in ("<<<M1563>>>" ++ check (runes_of_ascii "
-root
-	packet
-A
-{ u8 x `a
-    b
-  c` ,
-    }
-")).
-Eval vm_compute in ("<<<M1095>>>" ++ check (runes_of_ascii "packet A { char[ // a
- 3 // b
- ] // c
- x, }")).
-Eval vm_compute in ("<<<M1742>>>" ++ check (runes_of_ascii "root packet A {
+Eval vm_compute in ("<<<M809>>>" ++ check (runes_of_ascii "packet A {
+  match k as n {
+    [1, 22, ""c c"", 4] : B
+    2 : C
+  },
+}")).
+Eval vm_compute in ("<<<M788>>>" ++ check (runes_of_ascii "packet A {
+  match k as n {
+    [1, 22, 007] : B
+    2 : C
+  },
+}")).
+Eval vm_compute in ("<<<M1459>>>" ++ check (runes_of_ascii "MetaData M {
     u8 x `a
-    b`,
+        b`,
+    T t `a
+        b`,
 }")).
-Eval vm_compute in ("<<<M1489>>>" ++ check (runes_of_ascii "// `tick` ""quote"" 'q'
-options {
-}")).
-Eval vm_compute in ("<<<M983>>>" ++ check (runes_of_ascii "packet A {
- u8 x `d" ++ [12288]%N ++ runes_of_ascii "`, // c" ++ [12288]%N ++ runes_of_ascii "
-}")).
-Eval vm_compute in ("<<<M917>>>" ++ check (runes_of_ascii "packet A {
+Eval vm_compute in ("<<<M767>>>" ++ check (runes_of_ascii "@rightPad char[] string u16 @tag( @lengthOf( as packet ,")).
+Eval vm_compute in ("<<<M1201>>>" ++ check (runes_of_ascii "packet body // c
+{ i32 f32a `{ , }` , } options { }")).
+Eval vm_compute in ("<<<M654>>>" ++ check (runes_of_ascii "// @lengthOf(
+packet i8i8 { u128 o , }
+options {")).
+Eval vm_compute in ("<<<M1882>>>" ++ check (runes_of_ascii "
+packet  A{u8  x
+
+    `d" ++ [160]%N ++ runes_of_ascii "`
+,  // c" ++ [160]%N ++ runes_of_ascii "
+}
+
+")).
+Eval vm_compute in ("<<<M1075>>>" ++ check (runes_of_ascii "MetaData M {
+}// c
+MetaData N {
+}// d")).
+Eval vm_compute in ("<<<M946>>>" ++ check (runes_of_ascii "root packet A {
     u8 x `a
+
 b`,
 }")).
-Eval vm_compute in ("<<<M1388>>>" ++ check (runes_of_ascii "
-// c
-    packet x{ 
+Eval vm_compute in ("<<<M1513>>>" ++ check (runes_of_ascii "root packet P {
+    string s,
 }")).
-Eval vm_compute in ("<<<M1631>>>" ++ check (runes_of_ascii "packet Packet
+Eval vm_compute in ("<<<M1782>>>" ++ check (runes_of_ascii "
+// c" ++ [12]%N ++ runes_of_ascii "
+packet A
 
-{
+    {
+} ")).
+Eval vm_compute in ("<<<M1730>>>" ++ check (runes_of_ascii "packet
+
+zchar
+
+    { 
+}")).
+Eval vm_compute in ("<<<M238>>>" ++ check (runes_of_ascii "root packet chars
+{}
+")).
+Eval vm_compute in ("<<<M1132>>>" ++ check (runes_of_ascii "MetaData u // c
+{ }")).
+Eval vm_compute in ("<<<M1026>>>" ++ check (runes_of_ascii "packet A {
 }
+// c" ++ [8287]%N)).
+Eval vm_compute in ("<<<M1009>>>" ++ check (runes_of_ascii "packet A {
+}// c" ++ [8232]%N)).
+Eval vm_compute in ("<<<M1072>>>" ++ check (runes_of_ascii "
 
-")).
-Eval vm_compute in ("<<<M278>>>" ++ check (runes_of_ascii "packet Packet { }
-")).
-Eval vm_compute in ("<<<M1052>>>" ++ check (runes_of_ascii "// c" ++ [65279]%N ++ runes_of_ascii "
-packet A {
-}")).
-Eval vm_compute in ("<<<M1224>>>" ++ check (runes_of_ascii "// c
-packet x { }")).
-Eval vm_compute in ("<<<M1932>>>" ++ check (runes_of_ascii "MetaData A {
-}")).
-Eval vm_compute in ("<<<M975>>>" ++ check (runes_of_ascii "// c ")).
-Eval vm_compute in ("<<<M737>>>" ++ check ([1875; 65533]%N)).
+  packet A {}")).
+Eval vm_compute in ("<<<M1040>>>" ++ check (runes_of_ascii "// c 	")).
+Eval vm_compute in ("<<<M769>>>" ++ check ([12]%N ++ runes_of_ascii "7" ++ [30]%N)).
